@@ -70,6 +70,7 @@ impl Out {
         self.cases.push(line);
         self.impl_out.push(impl_out);
     }
+    pub fn stats_get(&self, k: &str) -> u64 { self.stats.get(k).copied().unwrap_or(0) }
     pub fn stat(&mut self, k: &str) {
         *self.stats.entry(k.to_string()).or_insert(0) += 1;
     }
